@@ -2913,6 +2913,30 @@ def t_routetext( ctx ):
     it = M.find( fn, '_pls = iter( _rp.split( "/" ))' )
     if it is None:
         raise AnalysisError( 'parse_route_path: iterator over the "/"-separated components not found' )
+    # JSON texts: what the `else:` of the decoding try admits ( null / 0 / false / a list: the documented ways to spell "no route path" and a
+    # path ) must survive the try's own assertion - a stricter assertion inside the try sends the documented scalars into the handler for
+    # NON-JSON text, which slices the already decoded value ( TypeError at start-up for --route-path=0 / false / null )
+    RPN = fn.args.args[0].arg
+    for t_ in [ t_ for t_ in walk_no_nested( fn ) if isinstance( t_, ast.Try ) and any( is_call_to( c_, 'json.loads' ) for b_ in t_.body for c_ in ast.walk( b_ )) ]:
+        def admitted( stmts ):
+            out = []
+            for s_ in stmts:
+                for a_ in ast.walk( s_ ):
+                    if isinstance( a_, ast.Assert ):
+                        m_ = pmatch( a_.test, 'isinstance( %s, _types )' % RPN )
+                        if m_ is not None:
+                            ts = m_['_types'].elts if isinstance( m_['_types'], ast.Tuple ) else [ m_['_types'] ]
+                            out.append(( a_, { norm_text( x_ ) for x_ in ts } ))
+            return out
+        inner, outer = admitted( t_.body ), admitted( t_.orelse )
+        if not inner or not outer:
+            continue
+        missing = set().union( *[ o_[1] for o_ in outer ] ) - set().union( *[ i_[1] for i_ in inner ] )
+        if missing:
+            res.bad( src, inner[0][0], 'parse_route_path: inside the JSON try %s is asserted to be %s, but its else-branch admits %s' % ( RPN, sorted( set().union( *[ i_[1] for i_ in inner ] )), sorted( set().union( *[ o_[1] for o_ in outer ] ))),
+                     'the alternatives %s can never reach the else-branch: the documented --route-path=0 / false / null ( "accept only an empty route path" ) fall into the handler for non-JSON text and crash with TypeError' % sorted( missing ))
+        else:
+            res.ok( src, inner[0][0], 'JSON route paths: every type the else-branch admits passes the assertion inside the try ( %s )' % sorted( set().union( *[ o_[1] for o_ in outer ] )))
     PLS = M.name( '_pls' )
     # zip( it, it ) pairs the components but silently drops an unmatched last one
     zips = [ c for c in ast.walk( fn ) if is_call_to( c, 'zip' ) and sum( 1 for a in c.args if dotted( a ) == PLS ) >= 2 ]
